@@ -802,7 +802,7 @@ func ruleIDValidation(c *Ctx, rule string) {
 	}
 	// the two checks may live in a helper called under the lock: if err := s.validate(id); err != nil { return false, err }
 	var helper *idHelper
-	if !absent || !greater {
+	{ // (also when the helper's own tests are already visible as facts implied by its nil result)
 		for _, f := range factsAt(ins) {
 			x, op, y, ok := cmpFact(f)
 			if !ok || op != token.EQL || !isNilConst(y) {
